@@ -15,6 +15,8 @@
 (*                  names, descriptions, producers, metadata               *)
 (*   C12.Artifacts  deterministic producers yield identical content        *)
 (*   C12.Resave     saving the reloaded graph reproduces the bytes         *)
+(*   C12.SavedFile  the file written by the application's saver (hf) is the *)
+(*                  saved document (h1), however often it was written before*)
 (*   Model.Mismatch the edited application differs from GraphEdit's model  *)
 (*                  (guards vacuity: the graph really is what the history  *)
 (*                  says; reported as infrastructure, not as C12)          *)
@@ -55,6 +57,9 @@ TStep ==
                         THEN {"C12.Reload"} ELSE {})
                   \cup (IF ln.loadok /\ ln.reload.arts # ln.orig.arts THEN {"C12.Artifacts"} ELSE {})
                   \cup (IF ln.loadok /\ ln.h1 # ln.h2 THEN {"C12.Resave"} ELSE {})
+                  \* the FILE the application's saver wrote (one file per history, written again after every observed
+                  \* step while documents grow and shrink) holds exactly the saved document
+                  \cup (IF "hf" \in DOMAIN ln /\ ln.hf # <<>> /\ ln.hf # ln.h1 THEN {"C12.SavedFile"} ELSE {})
                   \cup (IF Core(ln.orig) # ModelCore(g2) \/ (en /\ ~ln.ok) THEN {"Model.Mismatch"} ELSE {})
        IN /\ IF bad = {} THEN TRUE ELSE PrintT(ToJson([l |-> l, bad |-> bad, enabled |-> en]))
           /\ g' = g2
